@@ -318,15 +318,19 @@ AbRet(ret) == CASE ret = "fin" -> "ab_fin" [] ret = "uret" -> "ab_uret" [] ret =
 
 (* Association.abort() == _abort_blocking(block=True) called on thread f; `ret` = what follows *)
 AbortCall(r, n, f, ret) ==
-  IF r.sentAbort \/ r.rel THEN Cont(r, n, f, ret)
+  \* (the guard also tests is_aborted / is_rejected since the repair of the repeated EVT_ABORTED, C06)
+  IF r.sentAbort \/ r.rel \/ r.abt \/ r.rej THEN Cont(r, n, f, ret)
   ELSE LET r1 == [r EXCEPT !.sentAbort = TRUE, !.ckpt = TRUE]
            r2 == [Put(r1, "provq", "ABORT") EXCEPT !.abt = TRUE, !.est = FALSE]
            r3 == Fire(r2, "ABORTED") IN
        KillEnter(r3, n, f, AbRet(ret))
 
 \* _run_reactor entry: `_is_paused = False; while not self._kill:` -> parked in the loop-top sleep
+\* _run_reactor left through `_kill` set by another thread: an acceptor's run_reactor then calls kill() itself
+\* (waits for the provider) before it shuts the accepted socket down (C06 repair); a requestor's just ends
+LeaveReactor(r, n) == IF Role[n] = "acceptor" THEN KillEnter(r, n, "apc", "fin") ELSE Cont(r, n, "apc", "fin")
 EnterReactor(r, n) == LET r1 == [r EXCEPT !.paused = FALSE] IN
-                      IF r1.akill THEN Cont(r1, n, "apc", "fin") ELSE [r1 EXCEPT !.apc = "r_top"]
+                      IF r1.akill THEN LeaveReactor(r1, n) ELSE [r1 EXCEPT !.apc = "r_top"]
 
 ------------------------------------------------------------------------------
 (* Association thread: acceptor negotiation, then the reactor loop *)
@@ -398,7 +402,9 @@ RAbt(n) ==      \* if acse.is_aborted(): ...; if not dul.is_alive(): ...
   LET r == nd[n] IN
   /\ r.apc = "r_abt"
   /\ IF r.userq # <<>> /\ Head(r.userq) \in {"ABORT", "PABORT"}
-     THEN Upd(n, KillEnter(Fire([r EXCEPT !.userq = Tail(@), !.abt = TRUE, !.est = FALSE], "ABORTED"),
+     \* (a local abort() that got there first has already reported it: no second EVT_ABORTED, C06 repair)
+     THEN Upd(n, KillEnter(IF r.sentAbort \/ r.rel THEN [r EXCEPT !.userq = Tail(@)]
+                           ELSE Fire([r EXCEPT !.userq = Tail(@), !.abt = TRUE, !.est = FALSE], "ABORTED"),
                            n, "apc", "fin"))
      ELSE IF ~r.dalive THEN Upd(n, KillEnter(r, n, "apc", "fin"))
      ELSE Upd(n, [r EXCEPT !.apc = "r_idle"])
@@ -406,7 +412,9 @@ RAbt(n) ==      \* if acse.is_aborted(): ...; if not dul.is_alive(): ...
 RIdle(n) ==     \* network (idle) timeout check, then the `while not self._kill` test
   LET r == nd[n] IN
   /\ r.apc = "r_idle"
-  /\ \/ Upd(n, IF r.akill THEN Cont(r, n, "apc", "fin") ELSE [r EXCEPT !.apc = "r_top"])
+  \* (left through `_kill` set by another thread: run_reactor calls kill() itself, i.e. waits for the provider,
+  \*  before an acceptor shuts the socket down - C06 repair)
+  /\ \/ Upd(n, IF r.akill THEN LeaveReactor(r, n) ELSE [r EXCEPT !.apc = "r_top"])
      \/ /\ TimePasses(n)
         /\ nd' = [nd EXCEPT ![n] = AbortCall(r, n, "apc", "rkill")]
         /\ ntick' = ntick + 1
@@ -471,7 +479,8 @@ URelease(n) ==
 RlSpin(n) ==
   LET r == nd[n] IN
   /\ r.upc = "rl_spin" /\ r.paused
-  /\ Upd(n, SendRelRq(r))
+  \* (the association may have ended while release() waited for the reactor: re-test, C06 repair)
+  /\ Upd(n, IF r.est THEN SendRelRq(r) ELSE Cont(r, n, "upc", "rlend"))
 
 RlWait(n) ==    \* negotiate_release loop: receive_pdu(wait=True, timeout=acse_timeout)
   LET r == nd[n] IN
@@ -480,7 +489,8 @@ RlWait(n) ==    \* negotiate_release loop: receive_pdu(wait=True, timeout=acse_t
         /\ LET p  == Head(r.userq)
                r1 == [r EXCEPT !.userq = Tail(@)] IN
            IF p \in {"ABORT", "PABORT"}
-           THEN Upd(n, KillEnter(Fire([r1 EXCEPT !.abt = TRUE, !.est = FALSE], "ABORTED"), n, "upc", "rlend"))
+           THEN \* (a concurrent abort() has already reported it: no second EVT_ABORTED, C06 repair)
+                Upd(n, KillEnter(IF r1.abt \/ r1.rel THEN r1 ELSE Fire([r1 EXCEPT !.abt = TRUE, !.est = FALSE], "ABORTED"), n, "upc", "rlend"))
            ELSE IF p = "REL_IND"
            THEN \* release collision
                 IF Role[n] = "requestor"
@@ -488,10 +498,12 @@ RlWait(n) ==    \* negotiate_release loop: receive_pdu(wait=True, timeout=acse_t
                 ELSE Upd(n, [r1 EXCEPT !.ucoll = TRUE])
            ELSE \* a primitive with a result: the release confirmation
                 LET r2 == IF Role[n] = "acceptor" /\ r1.ucoll THEN Put(r1, "provq", "REL_RP") ELSE r1 IN
-                Upd(n, KillEnter(Fire([r2 EXCEPT !.rel = TRUE, !.est = FALSE], "RELEASED"), n, "upc", "rlend"))
+                \* (not reported if a concurrent abort() has already reported the abort, C06 repair)
+                Upd(n, KillEnter(IF r2.abt THEN r2 ELSE Fire([r2 EXCEPT !.rel = TRUE, !.est = FALSE], "RELEASED"), n, "upc", "rlend"))
      \/ /\ r.userq = <<>> /\ TimePasses(n)    \* ACSE timeout: send_abort(0x02), kill
-        /\ nd' = [nd EXCEPT ![n] = KillEnter(Fire([Put(r, "provq", "ABORT_P") EXCEPT !.abt = TRUE, !.est = FALSE],
-                                                  "ABORTED"), n, "upc", "rlend")]
+        /\ nd' = [nd EXCEPT ![n] = KillEnter(IF r.abt \/ r.rel THEN r
+                                             ELSE Fire([Put(r, "provq", "ABORT_P") EXCEPT !.abt = TRUE, !.est = FALSE], "ABORTED"),
+                                             n, "upc", "rlend")]
         /\ ntick' = ntick + 1
         /\ UNCHANGED <<wire, weof, npeer>>
 
@@ -510,7 +522,8 @@ ESpin(n) ==
   /\ Upd(n, [Put(r, "provq", "PDATA") EXCEPT !.upc = "e_wait"])
 
 \* _handle_no_response
-NoResponse(r, n) == IF r.userq # <<>> /\ Head(r.userq) \in {"ABORT", "PABORT"} THEN Cont(r, n, "upc", "uret")
+\* (an A-ABORT / A-P-ABORT indication, and since the C06 repair a pending A-RELEASE request, is left to the reactor)
+NoResponse(r, n) == IF r.userq # <<>> /\ Head(r.userq) \in {"ABORT", "PABORT", "REL_IND"} THEN Cont(r, n, "upc", "uret")
                     ELSE IF r.est THEN AbortCall(r, n, "upc", "uret")
                     ELSE Cont(r, n, "upc", "uret")
 
@@ -580,6 +593,26 @@ IdleStrict(r) == Idle(r) /\ r.st = 1
 \* C05 (safety half of "returns to idle"): when all threads of a node are done the provider is idle
 C05_DoneImpliesIdle == \A n \in Nodes :
    (ThreadsDone(nd[n]) /\ nd[n].dpc # "none" /\ nd[n].crash = <<>>) => Idle(nd[n])
+\* ---- C06 (pair instance): one terminal notification, agreement and no leak at quiescence ----
+Crashed(r) == r.crash # <<>>
+Quiescent == \A n \in Nodes : ThreadsDone(nd[n])
+Started(r) == r.dpc # "none"
+C06_OneTerminal == \A n \in Nodes : Crashed(nd[n]) \/ Terminals(nd[n]) <= 1
+\* "Same outcome" as the property words it: both released, or both rejected, or at least one side aborted and
+\* the other sees an abort or just a closed connection (it may have completed its half of a release before).
+\* The last case needs a source of aborts: without any abort() call and without any timeout expiring (Calm)
+\* two crash-free peers must both end released (or both rejected).
+SeesEnd(r) == r.abt \/ ~r.est
+Calm == ntick = 0 /\ \A n \in Nodes : ~nd[n].sentAbort
+OutcomeOK(r, p) == \/ r.rel /\ p.rel
+                   \/ ~Calm /\ (r.abt \/ p.abt) /\ SeesEnd(r) /\ SeesEnd(p)
+                   \/ r.rej /\ (p.rej \/ ~Started(p))
+                   \/ ~Started(r) \/ ~Started(p)
+C06_OneFlag == \A n \in Nodes : Crashed(nd[n]) \/
+                  (IF nd[n].rel THEN 1 ELSE 0) + (IF nd[n].abt THEN 1 ELSE 0) + (IF nd[n].rej THEN 1 ELSE 0) <= 1
+C06_Agreement == (Quiescent /\ \A n \in Nodes : ~Crashed(nd[n])) =>
+                    \A n \in Nodes : Role[n] = "requestor" => OutcomeOK(nd[n], nd[Other[n]])
+C06_NoLeak == (Quiescent /\ \A n \in Nodes : ~Crashed(nd[n])) => \A n \in Nodes : Started(nd[n]) => (Idle(nd[n]) /\ ~nd[n].est)
 \* C05 liveness: eventually always idle (checked under FairSpec on small configurations)
 C05_BackToIdle == \A n \in Nodes : <>[](nd[n].dpc # "none" => Idle(nd[n]))
 =============================================================================
